@@ -28,6 +28,8 @@ Streams (all end in the same judgement):
                            trusted construction / assignment / deserialization, rejected assignments / construction, ==/str/
                            hash), then the value lattice on another instance (Field objects are shared between instances);
                            random histories also start with such events with probability 0.4
+  directed:undefined-none  `_enable_undefined_value` classes: optional fields holding an explicit None (from the constructor or
+                           assigned) receive rejected and accepted values; `_none_fields` is part of the compared state
   directed:nonatomic-base  calls on which the base type's own method is not failure-atomic (list.sort with a comparison
                            that fails after moves; extend / update from an iterator that fails after valid items)
   directed:field-classes   EVERY exported Field class: assignment of a rejected value over an accepted one
@@ -2131,7 +2133,10 @@ def shrunk_replay(h, j, ctx, tables, done):
             try:
                 h2 = run_history(None, h.cast, ctx, tables, 1, "reread", ops=[s["op"]], kwargs=h.kwargs, origin=h.origin,
                                  siblings=h.siblings)
-                if h2 is not None and len(h2.steps) == 1 and h2.steps[0]["out"] == s["out"]:
+                pykeys = [k for jj, k, _ in h.py_findings if jj == j and not k.startswith("C03/stored-normal-form")
+                          and "invalid-after-success" not in k and "hook-not-run" not in k]
+                reproduced = not pykeys or any(k in pykeys for _, k, _ in (h2.py_findings if h2 else []))
+                if h2 is not None and len(h2.steps) == 1 and h2.steps[0]["out"] == s["out"] and reproduced:
                     name = s["op"]["name"]
                     if canon(dict(post_state_at(h2, 0)).get(name)) == canon(dict(post_state_at(h, j)).get(name)):
                         return replay_obj(h2, 0, ctx)
